@@ -97,7 +97,60 @@ def rule_cell(text, ctx, where):
     return text, n
 
 
-RULES = {"T": rule_T, "attrs": rule_attrs, "cell": rule_cell}
+def rule_pubfields(text, ctx, where):
+    """struct fields: add `pub` where missing (visibility has no run-time meaning; contracts must name the fields)"""
+    m = mask(text)
+    b = m.find("{")
+    if b < 0 or not re.search(r"\bstruct\b", m[:b]):
+        return text, 0
+    e = match_delim(m, b)
+    out, n, depth, i = [text[:b + 1]], 0, 0, b + 1
+    seg_start = i
+    # split fields at depth-0 commas inside the struct body
+    j = i
+    fields = []
+    while j < e:
+        c = m[j]
+        if c in "([{<":
+            depth += 1
+        elif c in ")]}>":
+            if not (c == ">" and m[j - 1] == "-"):
+                depth -= 1
+        elif c == "," and depth == 0:
+            fields.append((seg_start, j + 1))
+            seg_start = j + 1
+        j += 1
+    fields.append((seg_start, e))
+    for (a, z) in fields:
+        seg = text[a:z]
+        mt = re.match(r"(\s*)(pub(\s*\([^)]*\))?\s+)?([A-Za-z_]\w*\s*:)", seg)
+        if mt and not mt.group(2):
+            seg = mt.group(1) + "pub " + seg[mt.end(1):]
+            n += 1
+        elif mt and mt.group(3):
+            seg = mt.group(1) + "pub " + seg[mt.end(2):]
+            n += 1
+        out.append(seg)
+    out.append(text[e:])
+    return "".join(out), n
+
+
+def rule_fmtmsg(text, ctx, where):
+    """`format!(...)` -> `rt_msg()`: diagnostic message text is dropped (an arbitrary String)"""
+    n = 0
+    while True:
+        m = mask(text)
+        mt = re.search(r"\bformat!\s*\(", m)
+        if not mt:
+            break
+        b = mt.end() - 1
+        e = match_delim(m, b)
+        text = text[:mt.start()] + "rt_msg()" + text[e + 1:]
+        n += 1
+    return text, n
+
+
+RULES = {"fmtmsg": rule_fmtmsg, "pubfields": rule_pubfields, "T": rule_T, "attrs": rule_attrs, "cell": rule_cell}
 
 
 def apply_rules(text, rules, ctx, counts, where):
